@@ -16,7 +16,7 @@ import re
 import core
 
 KINDS = ("process", "process16", "procrelay", "policy", "hdrc", "utf16c", "authpayload", "matchauth", "clientip",
-         "paa", "usertok", "handshake", "tunnel", "config", "ntlm", "relay", "segment")
+         "paa", "usertok", "handshake", "tunnel", "config", "ntlm", "relay", "segment", "oidc")
 MAX_LINE = 1500      # characters of a case line: keeps the generated file small
 SAMPLE = 150
 
@@ -150,6 +150,23 @@ def term(c):
                                                 coq_bool(flags[1]), coq_bool(flags[2]), lens[0], lens[1], lens[2], lens[3], lens[4])
         e = "{| e_idp_ok := %s; e_keytab_loadable := %s; e_krb5conf_ok := %s |}" % (coq_bool(envb[0]), coq_bool(envb[1]), coq_bool(envb[2]))
         return "config_obs %s %s" % (r, e)
+    if k == "oidc":
+        ops = []
+        for o in f[1].split(","):
+            p = o.split(":")
+            if p[0] == "c" and len(p) == 3:
+                ops.append("OConnect %s%%N (%s)%%Z" % (p[1], p[2]))
+            elif p[0] == "b" and len(p) == 6:
+                kind = p[3]
+                okk = kind == "ok"
+                e = ("{| cb_exchange_ok := %s; cb_has_idtoken := %s; cb_verify_ok := %s; cb_username := %s; cb_access_token := [] |}"
+                     % (coq_bool(kind != "refuse"), coq_bool(kind != "noidtoken"),
+                        coq_bool(okk or kind in ("noname", "refuse", "noidtoken")),
+                        "[]" if kind == "noname" else blist(hexf(p[4]))))
+                ops.append("OCallback %s%%N %s%%N %s (%s)%%Z" % (p[1], p[2], e, p[5]))
+            else:
+                return None
+        return "oidc_obs [%s]" % "; ".join(ops)
     if k == "relay":
         return "relay_obs %s %s" % (coq_hexlist(f[0]), coq_hexlist(f[1]))
     if k == "segment":
@@ -220,7 +237,7 @@ def run(prop, cases, log):
     with open(path, "w") as f:
         f.write("(* generated by lib/coqcases.py: %d sampled cases of %s re-evaluated inside Coq *)\n" % (len(cs), prop))
         f.write("From Coq Require Import List NArith ZArith Bool.\nFrom Coq.Strings Require Import Byte.\n")
-        f.write("From RDPGW Require Import Lib.Bytes Gen.Consts Model.Packets Model.Processor Model.Policy Model.Token Model.Config Model.Ntlm Model.Relay Spec.Show.\n")
+        f.write("From RDPGW Require Import Lib.Bytes Gen.Consts Model.Packets Model.Processor Model.Policy Model.Token Model.Config Model.Ntlm Model.Relay Model.Oidc Spec.Show.\n")
         f.write("Import ListNotations.\n\n")
         for i, c in enumerate(cs):
             f.write("Definition c%d : bool := bytes_eqb (%s) %s.\n" % (i, term(c), blist(c.model.encode())))
